@@ -85,12 +85,16 @@ func (c *c14Conn) Close() error                   { c.rec.add(c.p, c.c); return 
 func (c *c14Conn) IsClosed() bool                 { return false }
 func (c *c14Conn) CloseWithError(network.ConnErrorCode) error {
 	c.rec.add(c.p, c.c)
+	// hook point 2: the selection is complete, the closes are under way
+	if c.w != nil && c.w.hookArmed && c.w.hookPoint == 2 {
+		c.w.tryHook()
+	}
 	return nil
 }
 func (c *c14Conn) Stat() network.ConnStats {
 	// the only method the trim calls on a connection between its candidate
 	// snapshot and its selection loop (from the sort's comparator)
-	if c.w != nil && c.w.hookArmed {
+	if c.w != nil && c.w.hookArmed && c.w.hookPoint == 1 {
 		c.w.tryHook()
 	}
 	return network.ConnStats{Stats: network.Stats{Direction: c.dir}, NumStreams: c.streams}
@@ -156,7 +160,10 @@ type c14World struct {
 	// trim, at the first Stat() call at which none of the script's peers has
 	// its segment locked by the comparator
 	hookArmed, hookFired bool
+	hookPoint            int // 1: inside the sort (after the snapshot, before the selection); 2: at the first close
 	hookScript           []c14Op
+	hookPresent          [c14NP]bool // GetTagInfo != nil before the trim
+	hookPruned           []int64     // hook point 2: present before the trim, absent when the hook fired
 	duringAt             int     // index in items of the during-trim event (-1 = none)
 	duringEvent          []int64 // NS script-words.. obs
 }
@@ -226,6 +233,9 @@ func (w *c14World) exec(o c14Op) {
 // everything here is single-threaded, so the answer stays valid).
 func (w *c14World) tryHook() {
 	for _, o := range w.hookScript {
+		if o.a < 0 || o.a >= c14NP {
+			continue
+		}
 		seg := w.cm.segments.get(w.ids[o.a])
 		if !seg.TryLock() {
 			w.cover("during.hook_deferred_segment_locked")
@@ -235,6 +245,14 @@ func (w *c14World) tryHook() {
 	}
 	w.hookArmed = false
 	w.hookFired = true
+	w.hookPruned = nil
+	if w.hookPoint == 2 {
+		for p := 0; p < c14NP; p++ {
+			if w.hookPresent[p] && w.cm.GetTagInfo(w.ids[p]) == nil {
+				w.hookPruned = append(w.hookPruned, int64(p))
+			}
+		}
+	}
 	for _, o := range w.hookScript {
 		w.apply(o)
 	}
@@ -243,8 +261,25 @@ func (w *c14World) tryHook() {
 // execDuring runs TrimOpenConns with the script armed.  If the hook fired the
 // event is recorded as the case's during-trim event, otherwise as a plain
 // TrimOpenConns.
-func (w *c14World) execDuring(script []c14Op) {
+func (w *c14World) execDuring(script []c14Op) { w.execDuringAt(script, 1) }
+
+// did the script also disconnect (p,c), i.e. was it an old connection?
+func (w *c14World) hookPresentConn(script []c14Op, p, c int64) bool {
+	for _, o := range script {
+		if o.kind == 2 && o.a == p && o.b == c {
+			return true
+		}
+	}
+	return false
+}
+
+func (w *c14World) execDuringAt(script []c14Op, point int) {
+	w.hookPoint = point
 	w.hookScript, w.hookArmed, w.hookFired = script, true, false
+	graceStart := w.cm.clock.Now().Add(-w.cm.cfg.gracePeriod)
+	for p := 0; p < c14NP; p++ {
+		w.hookPresent[p] = w.cm.GetTagInfo(w.ids[p]) != nil
+	}
 	w.preTrimCoverage()
 	w.cm.TrimOpenConns(context.Background())
 	w.hookArmed = false
@@ -254,13 +289,41 @@ func (w *c14World) execDuring(script []c14Op) {
 		w.items = append(w.items, append(c14Op{kind: 12}.words(), w.observe(12)...))
 		return
 	}
-	w.cover("during.hook_fired")
+	w.cover(fmt.Sprintf("during.hook_fired_at_point_%d", point))
 	w.duringAt = len(w.items)
-	ev := []int64{int64(len(script))}
+	ev := []int64{int64(point), int64(len(script))}
 	for _, o := range script {
 		ev = append(ev, o.words()...)
 	}
-	w.duringEvent = append(ev, w.observe(12)...)
+	ev = append(ev, int64(len(w.hookPruned)))
+	ev = append(ev, w.hookPruned...)
+	obs := w.observe(12)
+	w.duringEvent = append(ev, obs...)
+	// the two witnesses of Properties.v, when they occur on the implementation
+	nclosed := int(obs[1+3*c14NP])
+	for k := 0; k < nclosed; k++ {
+		p, c := obs[2+3*c14NP+2*k], obs[3+3*c14NP+2*k]
+		for _, o := range script {
+			if point == 1 && o.kind == 1 && o.a == p && o.b == c && !w.hookPresentConn(script, p, c) {
+				if ti := w.cm.GetTagInfo(w.ids[p]); ti != nil && ti.FirstSeen.After(graceStart) {
+					w.cover("during.witness1_closed_conn_opened_after_snapshot_inside_fresh_grace")
+				}
+			}
+		}
+	}
+	for _, o := range script {
+		if o.kind == 10 && !w.isProt(int(o.a)) && len(w.trackedConns(int(o.a))) > 0 {
+			w.cover("during.script_unprotected_a_connected_peer_after_snapshot")
+		}
+		if o.kind == 9 {
+			for k := 0; k < nclosed; k++ {
+				if obs[2+3*c14NP+2*k] == o.a {
+					w.cover("during.closed_peer_protected_after_snapshot")
+					break
+				}
+			}
+		}
+	}
 }
 
 // caseLine assembles the case: kind 0 (sequential) or kind 2 (with one
@@ -730,6 +793,42 @@ func c14Directed(out *verifh.Out, r *verifh.Rand) {
 		}
 		out.Case(w.caseLine())
 	})
+	// WITNESS 1 of Properties.v on the implementation: an early-tagged peer (3)
+	// is out of grace, hence a candidate; it connects after the snapshot; the
+	// trim closes the new connection inside its fresh grace period
+	synctest.Test(c14T, func(t *testing.T) {
+		w := c14New(c14Cfg{1, 3, 5, 1, dts}, r, out)
+		defer w.close()
+		for _, o := range []c14Op{T(3, 0, 1), C(1, 0), C(2, 0), A(5)} {
+			w.exec(o)
+		}
+		w.execDuring([]c14Op{C(3, 1)})
+		for _, o := range []c14Op{D(3, 1), trim} {
+			w.exec(o)
+		}
+		if w.duringAt >= 0 {
+			out.Cover("cases.during_trim_directed")
+		}
+		out.Case(w.caseLine())
+	})
+	// WITNESS 2: peer 4 is protected while snapshotted and unprotected before
+	// the trim finishes: two eligible connections are left with low = 1
+	synctest.Test(c14T, func(t *testing.T) {
+		w := c14New(c14Cfg{1, 3, 0, 1, dts}, r, out)
+		defer w.close()
+		for _, o := range []c14Op{C(2, 0), C(3, 0), C(4, 0), P(4, 0)} {
+			w.exec(o)
+		}
+		w.execDuring([]c14Op{U(4, 0)})
+		if cl := w.duringEvent; w.duringAt >= 0 && cl[len(cl)-3] == 1 {
+			out.Cover("during.witness2_two_eligible_left_with_low_1_after_unprotect")
+		}
+		w.exec(trim)
+		if w.duringAt >= 0 {
+			out.Cover("cases.during_trim_directed")
+		}
+		out.Case(w.caseLine())
+	})
 	// too many in grace: nothing is closed although above the low watermark
 	run(c14Cfg{3, 4, 10, 2, dts}, []c14Op{C(0, 0), C(1, 0), A(10), C(2, 0), C(3, 0), C(4, 0), trim, A(10), trim})
 }
@@ -774,7 +873,24 @@ func (w *c14World) randScript(r *verifh.Rand) []c14Op {
 			sc = append(sc, c14Op{kind: 2, a: int64(p), b: int64(c)})
 		}
 	}
-	switch r.Intn(6) {
+	switch r.Intn(9) {
+	case 6: // protection races with the trim
+		q := int64(r.Intn(c14NP))
+		if w.isProt(int(q)) {
+			for g := 0; g < c14NG; g++ {
+				sc = append(sc, c14Op{kind: 10, a: q, b: int64(g)})
+			}
+		} else {
+			sc = append(sc, c14Op{kind: 9, a: int64(P), b: int64(r.Intn(c14NG))})
+		}
+	case 7: // a decaying bump / remove lands during the trim
+		sc = append(sc, c14Op{kind: 6, a: int64(P), b: int64(r.Intn(c14ND)), v: int64(1 + r.Intn(9))})
+		if r.Bool() {
+			sc = append(sc, c14Op{kind: 7, a: int64(r.Intn(c14NP)), b: int64(r.Intn(c14ND))})
+		}
+	case 8: // an early-tagged peer connects
+		q := int64(r.Intn(c14NP))
+		sc = append(sc, c14Op{kind: 1, a: q, b: free(int(q))})
 	case 0, 1: // P loses every connection and reconnects on a new one
 		dropAll(P)
 		sc = append(sc, c14Op{kind: 1, a: int64(P), b: free(P)})
@@ -835,7 +951,22 @@ func c14DuringCase(out *verifh.Out, r *verifh.Rand) {
 		if cfg.grace > 0 {
 			w.exec(c14Op{kind: 11, a: cfg.grace + int64(r.Intn(2))})
 		}
-		w.execDuring(w.randScript(r))
+		// sometimes an early-tagged peer that is still inside its grace period
+		fresh := -1
+		if cfg.grace > 0 && r.Bool() {
+			for p := 0; p < c14NP; p++ {
+				if w.cm.GetTagInfo(w.ids[p]) == nil {
+					w.exec(c14Op{kind: 3, a: int64(p), b: 1, v: int64(r.Intn(3))})
+					fresh = p
+					break
+				}
+			}
+		}
+		script := w.randScript(r)
+		if fresh >= 0 && r.Chance(2, 3) {
+			script = append(script, c14Op{kind: 1, a: int64(fresh), b: int64(r.Intn(c14NC))})
+		}
+		w.execDuringAt(script, 1+r.Intn(4)/3)
 		// afterwards: the notifications for what was closed / reconnected, more trims
 		n := 4 + r.Intn(10)
 		for i := 0; i < n; i++ {
@@ -1107,20 +1238,24 @@ func TestVerifC14Replay(t *testing.T) {
 		}
 	}
 	var ops, script []c14Op
-	npre := -1
+	npre, hookPoint := -1, 1
 	if in[0] == 2 {
 		npre = int(in[i])
 		i++
 	}
 	for i < len(in) {
 		if len(ops) == npre && script == nil {
-			ns := int(in[i])
-			i++
+			hookPoint = int(in[i])
+			ns := int(in[i+1])
+			i += 2
 			script = []c14Op{}
 			for k := 0; k < ns && i < len(in); k++ {
 				if o, ok := readOp(); ok {
 					script = append(script, o)
 				}
+			}
+			if i < len(in) {
+				i += 1 + int(in[i]) // the recorded pruned list
 			}
 			skipObs()
 			continue
@@ -1137,12 +1272,12 @@ func TestVerifC14Replay(t *testing.T) {
 		defer w.close()
 		for k, o := range ops {
 			if k == npre && script != nil {
-				w.execDuring(script)
+				w.execDuringAt(script, hookPoint)
 			}
 			w.exec(o)
 		}
 		if len(ops) == npre && script != nil {
-			w.execDuring(script)
+			w.execDuringAt(script, hookPoint)
 		}
 		out.Case(w.caseLine())
 	})
